@@ -1,22 +1,111 @@
-// C01_hist.hh — exhaustive operation histories over StringWriter / BufferWriter (included by C01.cc).
+// C01_hist.hh — exhaustive operation histories over StringWriter / BufferWriter (included by C01_hist.cc).
 // A case is one operation sequence (all sequences of length 1..D over the alphabet, shortest
-// first).  It is replayed on a fresh writer and on a byte-vector model; afterwards the whole
-// buffer is compared and read back (i) sequentially with the matching accessors, (ii) positionally
-// in reverse / odd-even order, (iii) with advance=false twice.
+// first).  It is replayed on a fresh writer and on a byte-vector model; after EVERY operation the
+// whole buffer is compared; afterwards it is read back (i) sequentially with the matching accessors,
+// (ii) positionally in reverse / odd-even order, (iii) with advance=false twice.
+//
+// Two alphabets: build_alphabet() (round 1: one operation per typed kind, raw blocks, C strings,
+// positional writes at five placements, extend_by) and build_alphabet2() (round 2: operations that
+// start from a NON-INITIAL writer state — reset, content moved out, copy-/move-assignment over a
+// writer that already holds something, extend_to / extend_by with explicit fill, far positional writes
+// that leave the small-string buffer, template forms put<T>/pput<T> with plain structs and endian
+// wrappers, BufferWriter::pwrite in both overloads, a second BufferWriter constructed over a buffer
+// that already holds data).
 #pragma once
+#include "C01_common.hh"
 
 namespace {
 
-enum OpType { OP_PUT, OP_WRITE, OP_CSTR, OP_PPUT, OP_EXTEND };
+using namespace phosg;
+using namespace c01;
+
+// ---- template forms: plain structs / wrapper types written with put<T>, read with get<T> ----------
+struct TForm {
+  const char* name;
+  size_t size;
+  uint8_t ref[16];  // reference bytes of the value written
+  void (*sw_put)(StringWriter&);
+  void (*sw_pput)(StringWriter&, size_t);
+  void (*bw_put)(BufferWriter&);
+  void (*bw_pput)(BufferWriter&, size_t);
+  void (*get)(StringReader&, bool, uint8_t*);          // get<T>(advance): copies the bytes of the returned object
+  void (*pget)(const StringReader&, size_t, uint8_t*);  // pget<T>(offset)
+};
+
+#define C01_TFORM(NAME, T, MAKE)                                                                       \
+  [] {                                                                                                 \
+    TForm f;                                                                                           \
+    f.name = NAME;                                                                                     \
+    f.size = sizeof(T);                                                                                \
+    memset(f.ref, 0, sizeof(f.ref));                                                                   \
+    { uint8_t* ref = f.ref; T v = MAKE; (void)v; }                                                     \
+    f.sw_put = [](StringWriter& w) { uint8_t ref[16]; T v = MAKE; w.put<T>(v); };                      \
+    f.sw_pput = [](StringWriter& w, size_t o) { uint8_t ref[16]; T v = MAKE; w.pput<T>(o, v); };       \
+    f.bw_put = [](BufferWriter& w) { uint8_t ref[16]; T v = MAKE; w.put<T>(v); };                      \
+    f.bw_pput = [](BufferWriter& w, size_t o) { uint8_t ref[16]; T v = MAKE; w.pput<T>(o, v); };       \
+    f.get = [](StringReader& r, bool a, uint8_t* out) { const T& x = r.get<T>(a); memcpy(out, &x, sizeof(T)); }; \
+    f.pget = [](const StringReader& r, size_t o, uint8_t* out) { const T& x = r.pget<T>(o); memcpy(out, &x, sizeof(T)); }; \
+    return f;                                                                                          \
+  }()
+
+inline le_uint32_t make_le32(uint64_t v, uint8_t* ref) {
+  enc(ref, v, 4, LE);
+  return le_uint32_t((uint32_t)v);
+}
+inline be_int16_t make_be16(uint64_t v, uint8_t* ref) {
+  enc(ref, v, 2, BE);
+  return be_int16_t((int16_t)v);
+}
+
+const std::vector<TForm>& tforms() {
+  static const std::vector<TForm> t = {
+      C01_TFORM("S3", S3, make_S3(0x80F1E2ull, ref)),
+      C01_TFORM("S5", S5, make_S5(0xFE80010203ull, ref)),
+      C01_TFORM("S12", S12, make_S12(0x8101820283038404ull, ref)),
+      C01_TFORM("S16", S16, make_S16(0x8001020304050607ull, ref)),
+      C01_TFORM("le_uint32_t", le_uint32_t, make_le32(0x80010203u, ref)),
+      C01_TFORM("be_int16_t", be_int16_t, make_be16(0x80FE, ref)),
+  };
+  return t;
+}
+const TForm* tform(const char* name) {
+  for (auto& t : tforms())
+    if (!strcmp(t.name, name)) return &t;
+  fprintf(stderr, "no tform %s\n", name);
+  abort();
+}
+
+enum OpType {
+  OP_PUT, OP_WRITE, OP_CSTR, OP_PPUT, OP_EXTEND,
+  // round 2
+  OP_PUT_T,    // put<T>(struct / wrapper)
+  OP_PPUT_T,   // pput<T>(offset, struct)
+  OP_RESET,    // StringWriter::reset(); BufferWriter: a second writer constructed over the same (now non-empty) buffer
+  OP_TAKE,     // std::string t = std::move(w.str()); w.reset();   (StringWriter only)
+  OP_ASSIGN,   // w = other (copy, mode 0) / w = std::move(other) (mode 1), other holding "QRS" + u16b   (StringWriter only)
+  OP_PWRITE,   // BufferWriter::pwrite(off, std::string) (mode 0) / (off, ptr, len) (mode 1)
+};
 struct Op {
   OpType t;
   const Kind* k = nullptr;
+  const TForm* tf = nullptr;
   uint64_t v = 0;
-  int offmode = 0;  // PPUT: 0 -> 0, 1 -> 1, 2 -> size-1, 3 -> size, 4 -> size+3
+  int offmode = 0;  // PPUT/PPUT_T/PWRITE: 0 -> 0, 1 -> 1, 2 -> size-1, 3 -> size, 4 -> size+3, 5 -> size+1, 6 -> size+300
+  int mode = 0;
+  // OP_EXTEND: grow by `ext` bytes with fill `fill`; ext_to = extend_to(size+ext) instead of extend_by(ext);
+  // ext_default = call with the defaulted fill argument
+  size_t ext = 2;
+  uint8_t fill = 0;
+  bool ext_to = false, ext_default = true;
   std::string block;
   std::string name;  // for descriptions
   std::string key;   // accessor name for finding keys
 };
+
+const char* offmode_name(int mode) {
+  static const char* mn[] = {"0", "1", "size-1", "size", "size+3", "size+1", "size+300"};
+  return mn[mode];
+}
 
 Op op_put(const char* kn, uint64_t v) {
   Op o;
@@ -28,14 +117,13 @@ Op op_put(const char* kn, uint64_t v) {
   return o;
 }
 Op op_pput(const char* kn, uint64_t v, int mode) {
-  static const char* mn[] = {"0", "1", "size-1", "size", "size+3"};
   Op o;
   o.t = OP_PPUT;
   o.k = kind(kn);
   o.v = v;
   o.offmode = mode;
   o.key = kname("pput", *o.k);
-  o.name = o.key + "(" + mn[mode] + ", " + hexv(v, o.k->w) + ")";
+  o.name = o.key + "(" + offmode_name(mode) + ", " + hexv(v, o.k->w) + ")";
   return o;
 }
 Op op_write(const std::string& b) {
@@ -59,6 +147,52 @@ Op op_extend() {
   o.t = OP_EXTEND;
   o.key = "extend_by";
   o.name = "extend_by(2)";
+  return o;
+}
+Op op_extend2(bool to, size_t ext, bool defaulted, uint8_t fill) {
+  Op o;
+  o.t = OP_EXTEND;
+  o.ext_to = to;
+  o.ext = ext;
+  o.ext_default = defaulted;
+  o.fill = defaulted ? 0 : fill;
+  o.key = to ? "extend_to" : "extend_by";
+  o.name = o.key + (to ? vf::fmt("(size+%zu", ext) : vf::fmt("(%zu", ext)) + (defaulted ? ")" : vf::fmt(", 0x%02X)", fill));
+  return o;
+}
+Op op_put_t(const char* tn) {
+  Op o;
+  o.t = OP_PUT_T;
+  o.tf = tform(tn);
+  o.key = std::string("put<") + tn + ">";
+  o.name = o.key + "(" + hexb(o.tf->ref, o.tf->size) + ")";
+  return o;
+}
+Op op_pput_t(const char* tn, int mode) {
+  Op o;
+  o.t = OP_PPUT_T;
+  o.tf = tform(tn);
+  o.offmode = mode;
+  o.key = std::string("pput<") + tn + ">";
+  o.name = o.key + "(" + offmode_name(mode) + ", " + hexb(o.tf->ref, o.tf->size) + ")";
+  return o;
+}
+Op op_simple(OpType t, const char* key, const char* name, int mode = 0) {
+  Op o;
+  o.t = t;
+  o.mode = mode;
+  o.key = key;
+  o.name = name;
+  return o;
+}
+Op op_pwrite(const std::string& b, int offmode, int mode) {
+  Op o;
+  o.t = OP_PWRITE;
+  o.block = b;
+  o.offmode = offmode;
+  o.mode = mode;
+  o.key = mode ? "pwrite_ptr" : "pwrite_str";
+  o.name = std::string("pwrite(") + offmode_name(offmode) + ", " + vf::show(b) + (mode ? ", len)" : " as std::string)");
   return o;
 }
 
@@ -129,12 +263,59 @@ std::vector<Op> build_alphabet(bool thorough) {
   return a;
 }
 
-enum ItemType { IT_TYPED, IT_RAW, IT_CSTR };
+// round-2 alphabet: state-changing operations crossed with a few appends and positional writes
+std::vector<Op> build_alphabet2(bool for_bw, bool thorough) {
+  std::vector<Op> a;
+  a.push_back(op_put("u8", 0x80));
+  a.push_back(op_put("u16b", 0x8001));
+  a.push_back(op_put("u32l", 0x80010203));
+  a.push_back(op_put("f64b", 0x7FF8000000000001ull));
+  a.push_back(op_put("s24l", 0x800102));
+  a.push_back(op_put_t("S3"));
+  a.push_back(op_put_t("S12"));
+  a.push_back(op_put_t("le_uint32_t"));
+  a.push_back(op_write(std::string("ab\0c", 4)));
+  a.push_back(op_write("0123456789ABCDEFG"));  // 17 bytes: leaves the small-string buffer in one step
+  a.push_back(op_cstr("hi"));
+  a.push_back(op_pput("u16l", 0xBEEF, 2));                 // straddles the end / the cursor
+  a.push_back(op_pput("u32b", 0xDEADBEEF, 0));
+  a.push_back(op_pput("u8", 0xEE, 6));                     // 300 bytes past the end
+  a.push_back(op_pput("u64b", 0x1122334455667788ull, 3));  // exactly at the end
+  a.push_back(op_pput_t("S5", 5));                         // one byte past the end
+  a.push_back(op_pput_t("be_int16_t", 1));
+  a.push_back(op_simple(OP_RESET, for_bw ? "rebind" : "reset", for_bw ? "BufferWriter(buf, cap) again" : "reset()"));
+  a.push_back(op_extend2(false, 1, false, 0xAB));  // extend_by(1, 0xAB)   (BufferWriter: write of the fill byte)
+  if (!for_bw) {
+    a.push_back(op_extend2(true, 2, false, 0x7E));   // extend_to(size+2, 0x7E)
+    a.push_back(op_extend2(true, 0, true, 0));       // extend_to(size)
+    a.push_back(op_extend2(false, 0, true, 0));      // extend_by(0)
+    a.push_back(op_simple(OP_TAKE, "take", "t = std::move(str()); reset()"));
+    a.push_back(op_simple(OP_ASSIGN, "assign_copy", "w = other(\"QRS\" + u16b 0x8001)", 0));
+    a.push_back(op_simple(OP_ASSIGN, "assign_move", "w = std::move(other(\"QRS\" + u16b 0x8001))", 1));
+  } else {
+    a.push_back(op_pwrite(std::string("x\0y", 3), 0, 0));
+    a.push_back(op_pwrite(std::string("x\0y", 3), 2, 1));
+    a.push_back(op_pwrite("", 3, 0));
+    a.push_back(op_pwrite("pq", 4, 0));
+    a.push_back(op_pwrite("pq", 1, 1));
+  }
+  if (thorough) {
+    a.push_back(op_put_t("S16"));
+    a.push_back(op_put_t("be_int16_t"));
+    a.push_back(op_pput_t("S3", 2));
+    a.push_back(op_pput_t("S12", 4));
+    a.push_back(op_pput("f32l", 0x7FC00001, 5));
+  }
+  return a;
+}
+
+enum ItemType { IT_TYPED, IT_RAW, IT_CSTR, IT_TFORM };
 struct Item {
   ItemType t;
   const Kind* k;
   size_t off, len;
   bool tiling;  // part of the in-order tiling of the buffer (appends and extension segments)
+  const TForm* tf = nullptr;
 };
 
 std::string seq_name(const std::vector<Op>& alpha, const std::vector<uint32_t>& seq) {
@@ -148,14 +329,7 @@ std::string seq_name(const std::vector<Op>& alpha, const std::vector<uint32_t>& 
 bool read_back(vf::Run& r, const uint8_t* buf, size_t n, const Bytes& m, const std::vector<Item>& items, size_t tiled_end, const std::function<std::string()>& hdesc) {
   auto slice = [&](size_t off, size_t len) { return std::string((const char*)m.data() + off, len); };
   // expected C string at off: bytes up to the first NUL at or after off, if any
-  auto cstr_at = [&](size_t off, std::string* out) {
-    for (size_t j = off; j < n; j++)
-      if (m[j] == 0) {
-        *out = slice(off, j - off);
-        return true;
-      }
-    return false;
-  };
+  auto cstr_at = [&](size_t off, std::string* out) { return model_cstr(m.data(), n, off, out); };
   bool good = true;
   auto bad = [&](const std::string& key, const std::string& what) {
     r.fail(key, [&] { return hdesc() + " :: " + what; });
@@ -178,10 +352,16 @@ bool read_back(vf::Run& r, const uint8_t* buf, size_t n, const Bytes& m, const s
           if (g != want) { bad(kname("get", *it.k) + ":value", vf::fmt("sequential get_%s at %zu returned 0x%llX, decoder says 0x%llX", it.k->name, it.off, (unsigned long long)g, (unsigned long long)want)); return false; }
           pos += it.k->w;
           if (rd.where() != pos) { bad(kname("get", *it.k) + ":advance", vf::fmt("cursor %zu after get_%s at %zu", rd.where(), it.k->name, it.off)); return false; }
+        } else if (it.t == IT_TFORM) {
+          uint8_t got[16];
+          it.tf->get(rd, true, got);
+          if (memcmp(got, m.data() + it.off, it.tf->size)) { bad(std::string("get<") + it.tf->name + ">:value", vf::fmt("sequential get<%s> at %zu returned bytes %s, buffer holds %s", it.tf->name, it.off, hexb(got, it.tf->size).c_str(), hexb(m.data() + it.off, it.tf->size).c_str())); return false; }
+          pos += it.tf->size;
+          if (rd.where() != pos) { bad(std::string("get<") + it.tf->name + ">:advance", vf::fmt("cursor %zu after get<%s> (%zu bytes) at %zu", rd.where(), it.tf->name, it.tf->size, it.off)); return false; }
         } else if (it.t == IT_RAW) {
           std::string want = slice(it.off, it.len), got;
           const char* fn;
-          switch (idx % 4) {
+          switch (idx % 7) {
             case 0: fn = "read"; got = rd.read(it.len); break;
             case 1: fn = "readx"; got = rd.readx(it.len); break;
             case 2: {
@@ -191,11 +371,30 @@ bool read_back(vf::Run& r, const uint8_t* buf, size_t n, const Bytes& m, const s
               got = std::string((const char*)b.p, c);
               break;
             }
-            default: {
+            case 3: {
               fn = "readx_buf";
               Exact b(it.len);
               rd.readx(b.p, it.len);
               got = std::string((const char*)b.p, it.len);
+              break;
+            }
+            case 4: fn = "getv"; got = std::string((const char*)rd.getv(it.len), it.len); break;
+            case 5: {
+              fn = "peek+skip";
+              got = std::string(rd.peek(it.len), it.len);
+              rd.skip(it.len);
+              break;
+            }
+            default: {
+              fn = "skip_if";
+              // a block that differs in its last byte must be refused without moving, the real one accepted
+              std::string other = want;
+              if (!other.empty()) other.back() = (char)(other.back() ^ 0x40);
+              size_t before = rd.where();
+              bool refused = other.empty() ? true : !rd.skip_if(other.data(), other.size());
+              bool stayed = rd.where() == before;
+              bool accepted = rd.skip_if(want.data(), want.size());
+              got = (refused && stayed && accepted) ? want : std::string("<skip_if: ") + (refused ? "" : "accepted a different block ") + (stayed ? "" : "moved on refusal ") + (accepted ? "" : "refused the block that is there") + ">";
               break;
             }
           }
@@ -237,10 +436,14 @@ bool read_back(vf::Run& r, const uint8_t* buf, size_t n, const Bytes& m, const s
           uint64_t want = it.k->expect(dec(m.data() + it.off, it.k->w, it.k->e));
           uint64_t g = it.k->pget(rd, it.off);
           if (g != want) { bad(kname("pget", *it.k) + ":value", vf::fmt("pget_%s(%zu) returned 0x%llX, decoder says 0x%llX", it.k->name, it.off, (unsigned long long)g, (unsigned long long)want)); return false; }
+        } else if (it.t == IT_TFORM) {
+          uint8_t got[16];
+          it.tf->pget(rd, it.off, got);
+          if (memcmp(got, m.data() + it.off, it.tf->size)) { bad(std::string("pget<") + it.tf->name + ">:value", vf::fmt("pget<%s>(%zu) returned bytes %s, buffer holds %s", it.tf->name, it.off, hexb(got, it.tf->size).c_str(), hexb(m.data() + it.off, it.tf->size).c_str())); return false; }
         } else if (it.t == IT_RAW) {
           std::string want = slice(it.off, it.len), got;
           const char* fn;
-          switch (cnt % 4) {
+          switch (cnt % 5) {
             case 0: fn = "pread"; got = rd.pread(it.off, it.len); break;
             case 1: fn = "preadx"; got = rd.preadx(it.off, it.len); break;
             case 2: {
@@ -248,6 +451,13 @@ bool read_back(vf::Run& r, const uint8_t* buf, size_t n, const Bytes& m, const s
               Exact b(it.len);
               size_t c = rd.pread(it.off, b.p, it.len);
               got = std::string((const char*)b.p, c);
+              break;
+            }
+            case 3: {
+              fn = "preadx_buf";
+              Exact b(it.len);
+              rd.preadx(it.off, b.p, it.len);
+              got = std::string((const char*)b.p, it.len);
               break;
             }
             default: {
@@ -278,11 +488,24 @@ bool read_back(vf::Run& r, const uint8_t* buf, size_t n, const Bytes& m, const s
           uint64_t g1 = it.k->get(rd, false);
           if (g0 != want || g1 != want) { bad(kname("get", *it.k) + ":value", vf::fmt("get_%s(advance=false) twice at %zu returned 0x%llX, 0x%llX; decoder says 0x%llX", it.k->name, it.off, (unsigned long long)g0, (unsigned long long)g1, (unsigned long long)want)); return false; }
           if (rd.where() != it.off) { bad(kname("get", *it.k) + ":advance", vf::fmt("get_%s(advance=false) at %zu left the cursor at %zu", it.k->name, it.off, rd.where())); return false; }
+        } else if (it.t == IT_TFORM) {
+          uint8_t g0[16], g1[16];
+          it.tf->get(rd, false, g0);
+          it.tf->get(rd, false, g1);
+          if (memcmp(g0, m.data() + it.off, it.tf->size) || memcmp(g1, m.data() + it.off, it.tf->size)) { bad(std::string("get<") + it.tf->name + ">:value", vf::fmt("get<%s>(advance=false) twice at %zu returned %s / %s, buffer holds %s", it.tf->name, it.off, hexb(g0, it.tf->size).c_str(), hexb(g1, it.tf->size).c_str(), hexb(m.data() + it.off, it.tf->size).c_str())); return false; }
+          if (rd.where() != it.off) { bad(std::string("get<") + it.tf->name + ">:advance", vf::fmt("get<%s>(advance=false) at %zu left the cursor at %zu", it.tf->name, it.off, rd.where())); return false; }
         } else if (it.t == IT_RAW) {
           std::string want = slice(it.off, it.len);
           std::string g0 = rd.read(it.len, false), g1 = rd.readx(it.len, false);
-          if (g0 != want || g1 != want) { bad("read:value", vf::fmt("read/readx(%zu, advance=false) at %zu returned %s / %s, model %s", it.len, it.off, vf::show(g0).c_str(), vf::show(g1).c_str(), vf::show(want).c_str())); return false; }
-          if (rd.where() != it.off) { bad("read:advance", vf::fmt("read/readx(advance=false) at %zu left the cursor at %zu", it.off, rd.where())); return false; }
+          Exact b(it.len);
+          size_t c2 = rd.read(b.p, it.len, false);
+          std::string g2((const char*)b.p, c2);
+          memset(b.p, 0xEE, it.len);
+          rd.readx(b.p, it.len, false);
+          std::string g3((const char*)b.p, it.len);
+          std::string g4((const char*)rd.getv(it.len, false), it.len);
+          if (g0 != want || g1 != want || g2 != want || g3 != want || g4 != want) { bad("read:value", vf::fmt("read/readx/read(buf)/readx(buf)/getv(%zu, advance=false) at %zu returned %s / %s / %s / %s / %s, model %s", it.len, it.off, vf::show(g0).c_str(), vf::show(g1).c_str(), vf::show(g2).c_str(), vf::show(g3).c_str(), vf::show(g4).c_str(), vf::show(want).c_str())); return false; }
+          if (rd.where() != it.off) { bad("read:advance", vf::fmt("read/readx/getv(advance=false) at %zu left the cursor at %zu", it.off, rd.where())); return false; }
         } else {
           std::string want;
           if (!cstr_at(it.off, &want)) continue;
@@ -306,8 +529,16 @@ size_t pput_offset(int mode, size_t size) {
     case 1: return 1;
     case 2: return size ? size - 1 : 0;
     case 3: return size;
-    default: return size + 3;
+    case 4: return size + 3;
+    case 5: return size + 1;
+    default: return size + 300;
   }
+}
+
+// the writer that OP_ASSIGN assigns from: "QRS" followed by u16b 0x8001
+void fill_other(StringWriter& o) {
+  o.write("QRS", 3);
+  o.put_u16b(0x8001);
 }
 
 // one history on StringWriter
@@ -332,6 +563,11 @@ void history_sw(vf::Run& r, const std::vector<Op>& alpha, const std::vector<uint
           o.k->sw_put(sw, o.v);
           break;
         }
+        case OP_PUT_T:
+          items.push_back({IT_TFORM, nullptr, m.size(), o.tf->size, true, o.tf});
+          m.insert(m.end(), o.tf->ref, o.tf->ref + o.tf->size);
+          o.tf->sw_put(sw);
+          break;
         case OP_WRITE:
           items.push_back({IT_RAW, nullptr, m.size(), o.block.size(), true});
           m.insert(m.end(), o.block.begin(), o.block.end());
@@ -344,27 +580,75 @@ void history_sw(vf::Run& r, const std::vector<Op>& alpha, const std::vector<uint
           m.push_back(0);
           sw.write(o.block.c_str(), o.block.size() + 1);
           break;
-        case OP_PPUT: {
-          uint8_t b[8];
-          enc(b, o.v, o.k->w, o.k->e);
+        case OP_PPUT:
+        case OP_PPUT_T: {
+          uint8_t b[16];
+          size_t w;
+          if (o.t == OP_PPUT) {
+            w = o.k->w;
+            enc(b, o.v, o.k->w, o.k->e);
+          } else {
+            w = o.tf->size;
+            memcpy(b, o.tf->ref, w);
+          }
           size_t old = m.size(), off = pput_offset(o.offmode, old);
-          if (m.size() < off + o.k->w) m.resize(off + o.k->w, 0);  // zero-extension past the end
-          memcpy(m.data() + off, b, o.k->w);
+          if (m.size() < off + w) m.resize(off + w, 0);  // zero-extension past the end
+          memcpy(m.data() + off, b, w);
           if (m.size() > old) items.push_back({IT_RAW, nullptr, old, m.size() - old, true});
-          items.push_back({IT_TYPED, o.k, off, (size_t)o.k->w, false});
-          o.k->sw_pput(sw, off, o.v);
+          if (o.t == OP_PPUT) {
+            items.push_back({IT_TYPED, o.k, off, w, false});
+            o.k->sw_pput(sw, off, o.v);
+          } else {
+            items.push_back({IT_TFORM, nullptr, off, w, false, o.tf});
+            o.tf->sw_pput(sw, off);
+          }
           break;
         }
         case OP_EXTEND:
-          items.push_back({IT_RAW, nullptr, m.size(), 2, true});
-          m.resize(m.size() + 2, 0);
-          sw.extend_by(2);
+          items.push_back({IT_RAW, nullptr, m.size(), o.ext, true});
+          m.resize(m.size() + o.ext, o.fill);
+          if (o.ext_to) {
+            if (o.ext_default) sw.extend_to(m.size());
+            else sw.extend_to(m.size(), (char)o.fill);
+          } else {
+            if (o.ext_default) sw.extend_by(o.ext);
+            else sw.extend_by(o.ext, (char)o.fill);
+          }
           break;
+        case OP_RESET:
+          sw.reset();
+          m.clear();
+          items.clear();
+          break;
+        case OP_TAKE: {
+          std::string t = std::move(sw.str());
+          if (t.size() != m.size() || memcmp(t.data(), m.data(), m.size())) {
+            r.fail("take:bytes", [&] { return hdesc() + ": the string moved out of str() holds " + hexb(t.data(), t.size()) + ", model " + hexb(m.data(), m.size()); });
+            return;
+          }
+          sw.reset();  // a moved-from std::string is valid but unspecified; reset() must make the writer empty again
+          m.clear();
+          items.clear();
+          break;
+        }
+        case OP_ASSIGN: {
+          StringWriter other;
+          fill_other(other);
+          if (o.mode == 0) sw = other;
+          else sw = std::move(other);
+          m.assign({'Q', 'R', 'S', 0x80, 0x01});
+          items.clear();
+          items.push_back({IT_RAW, nullptr, 0, 3, true});
+          items.push_back({IT_TYPED, kind("u16b"), 3, 2, true});
+          break;
+        }
+        case OP_PWRITE: break;  // not in the StringWriter alphabet
       }
       // the buffer is compared after every operation so that a divergence is attributed to the
       // operation that caused it, not to the last one of the history
       const std::string& s = sw.str();
-      if (sw.size() != m.size() || s.size() != m.size()) {
+      const std::string& cs = const_cast<const StringWriter&>(sw).str();
+      if (sw.size() != m.size() || s.size() != m.size() || &cs != &s) {
         r.fail(o.key + ":size", [&] { return hdesc() + " :: after " + o.name + vf::fmt(": writer size %zu, model %zu", sw.size(), m.size()); });
         return;
       }
@@ -396,10 +680,16 @@ void history_bw(vf::Run& r, const std::vector<Op>& alpha, const std::vector<uint
       const Op& o = alpha[oi];
       switch (o.t) {
         case OP_PUT: cur += o.k->w; break;
+        case OP_PUT_T: cur += o.tf->size; break;
         case OP_WRITE: cur += o.block.size(); break;
         case OP_CSTR: cur += o.block.size() + 1; break;
-        case OP_EXTEND: cur += 2; break;
+        case OP_EXTEND: cur += o.ext; break;
         case OP_PPUT: cap = std::max(cap, pput_offset(o.offmode, cur) + o.k->w); break;
+        case OP_PPUT_T: cap = std::max(cap, pput_offset(o.offmode, cur) + o.tf->size); break;
+        case OP_PWRITE: cap = std::max(cap, pput_offset(o.offmode, cur) + o.block.size()); break;
+        case OP_RESET: cur = 0; break;
+        case OP_TAKE:
+        case OP_ASSIGN: break;
       }
       cap = std::max(cap, cur);
     }
@@ -423,6 +713,12 @@ void history_bw(vf::Run& r, const std::vector<Op>& alpha, const std::vector<uint
           cur += o.k->w;
           o.k->bw_put(bw, o.v);
           break;
+        case OP_PUT_T:
+          memcpy(m.data() + cur, o.tf->ref, o.tf->size);
+          items.push_back({IT_TFORM, nullptr, cur, o.tf->size, true, o.tf});
+          cur += o.tf->size;
+          o.tf->bw_put(bw);
+          break;
         case OP_WRITE:
           memcpy(m.data() + cur, o.block.data(), o.block.size());
           items.push_back({IT_RAW, nullptr, cur, o.block.size(), true});
@@ -436,11 +732,11 @@ void history_bw(vf::Run& r, const std::vector<Op>& alpha, const std::vector<uint
           cur += o.block.size() + 1;
           bw.write(o.block.c_str(), o.block.size() + 1);
           break;
-        case OP_EXTEND: {  // BufferWriter cannot grow: the counterpart is writing two zero bytes
-          m[cur] = m[cur + 1] = 0;
-          items.push_back({IT_RAW, nullptr, cur, 2, true});
-          cur += 2;
-          bw.write(std::string(2, '\0'));
+        case OP_EXTEND: {  // BufferWriter cannot grow: the counterpart is writing the fill bytes
+          memset(m.data() + cur, o.fill, o.ext);
+          items.push_back({IT_RAW, nullptr, cur, o.ext, true});
+          cur += o.ext;
+          bw.write(std::string(o.ext, (char)o.fill));
           break;
         }
         case OP_PPUT: {
@@ -450,6 +746,30 @@ void history_bw(vf::Run& r, const std::vector<Op>& alpha, const std::vector<uint
           o.k->bw_pput(bw, off, o.v);
           break;
         }
+        case OP_PPUT_T: {
+          size_t off = pput_offset(o.offmode, cur);
+          memcpy(m.data() + off, o.tf->ref, o.tf->size);
+          items.push_back({IT_TFORM, nullptr, off, o.tf->size, false, o.tf});
+          o.tf->bw_pput(bw, off);
+          break;
+        }
+        case OP_PWRITE: {
+          size_t off = pput_offset(o.offmode, cur);
+          memcpy(m.data() + off, o.block.data(), o.block.size());
+          items.push_back({IT_RAW, nullptr, off, o.block.size(), false});
+          if (o.mode == 0) bw.pwrite(off, o.block);
+          else bw.pwrite(off, o.block.data(), o.block.size());
+          break;
+        }
+        case OP_RESET:
+          // a second writer over the same buffer, which already holds what was written so far: the cursor
+          // starts at 0 again, nothing is cleared
+          bw = BufferWriter(buf.p, cap);
+          cur = 0;
+          for (auto& it : items) it.tiling = false;
+          break;
+        case OP_TAKE:
+        case OP_ASSIGN: break;  // not in the BufferWriter alphabet
       }
       if (memcmp(buf.p, m.data(), cap)) {
         r.fail("bw_" + o.key + ":bytes", [&] { return hdesc() + " :: after " + o.name + ": buffer holds " + hexb(buf.p, cap) + ", model " + hexb(m.data(), cap); });
@@ -489,19 +809,3 @@ void enumerate_histories(vf::Run& r, const std::vector<Op>& alpha, size_t depth,
 }
 
 }  // namespace
-
-VF_SECTION(hist_sw, 16, 16, 60) {
-  auto alpha = build_alphabet(r.thorough());
-  size_t depth = r.thorough() ? 4 : 3;
-  r.note("StringWriter histories");
-  enumerate_histories(r, alpha, depth, [&](const std::vector<uint32_t>& seq) { history_sw(r, alpha, seq); });
-  r.bound = vf::fmt("all operation sequences of length 1..%zu over %zu StringWriter operations (put_K(v), write(block), write(cstr), pput_K(off in {0,1,size-1,size,size+3}, v), extend_by(2)); un-merged, every history replayed on a fresh writer", depth, alpha.size());
-}
-
-VF_SECTION(hist_bw, 16, 16, 60) {
-  auto alpha = build_alphabet(false);
-  size_t depth = r.thorough() ? 4 : 3;
-  r.note("BufferWriter histories");
-  enumerate_histories(r, alpha, depth, [&](const std::vector<uint32_t>& seq) { history_bw(r, alpha, seq); });
-  r.bound = vf::fmt("all operation sequences of length 1..%zu over %zu BufferWriter operations on an exact-size caller buffer", depth, alpha.size());
-}
